@@ -527,72 +527,50 @@ theorem mean_reported (h : Repr D s xs) (hne : xs ≠ []) :
   simp only [cmb_datasummary_mean_dom, cmb_datasummary_mean, h.cookie_val, true_and, and_true]
   exact h.m1_mean hne
 
-theorem variance_reported (h : Repr D s xs) (hn : 2 ≤ xs.length) :
-    cmb_datasummary_variance_dom s ∧ cmb_datasummary_variance s = sampleVariance xs := by
-  have hne : xs ≠ [] := by intro e; subst e; simp at hn
-  have hc : 1 < s.count := by rw [h.count]; omega
-  have hcast : (((s.count - 1 : ℕ)) : K) = (xs.length : K) - 1 := by
-    rw [h.count, Nat.cast_sub (by omega)]; simp
-  have hnz : (xs.length : K) - 1 ≠ 0 := by
-    have : (1 : K) < (xs.length : K) := by exact_mod_cast (by omega : 1 < xs.length)
+/-! #### closed forms of the accessors in terms of the fields (no list involved; reused by the weighted summary) -/
+
+theorem variance_formula (hc : 1 < s.count) (hck : s.cookie = 70391967513698304) :
+    cmb_datasummary_variance_dom s ∧ cmb_datasummary_variance s = s.m2 / ((s.count : K) - 1) := by
+  have hcast : (((s.count - 1 : ℕ)) : K) = (s.count : K) - 1 := by
+    rw [Nat.cast_sub (by omega)]; simp
+  have hnz : (s.count : K) - 1 ≠ 0 := by
+    have : (1 : K) < (s.count : K) := by exact_mod_cast hc
     intro e; linarith
   constructor
-  · simp only [cmb_datasummary_variance_dom, h.cookie_val, true_and, and_true, gt_iff_lt, hc, if_true, hcast]
+  · simp only [cmb_datasummary_variance_dom, hck, true_and, and_true, gt_iff_lt, hc, if_true, hcast]
     exact ⟨by omega, hnz⟩
-  · simp only [cmb_datasummary_variance, gt_iff_lt, hc, if_true, hcast, sampleVariance, h.m2]
-    rw [h.m1_mean hne]
+  · simp only [cmb_datasummary_variance, gt_iff_lt, hc, if_true, hcast]
 
-theorem variance_small (h : Repr D s xs) (hn : xs.length ≤ 1) : cmb_datasummary_variance s = 0 := by
-  have hc : ¬ 1 < s.count := by rw [h.count]; omega
-  simp [cmb_datasummary_variance, hc]
+theorem variance_small_count (hc : s.count ≤ 1) (hck : s.cookie = 70391967513698304) :
+    cmb_datasummary_variance_dom s ∧ cmb_datasummary_variance s = 0 := by
+  have hc' : ¬ 1 < s.count := by omega
+  simp [cmb_datasummary_variance, cmb_datasummary_variance_dom, hc', hck]
 
-theorem kurtosis_reported (h : Repr D s xs) (hn : 4 ≤ xs.length) (hv : S 2 (amean xs) xs ≠ 0) :
-    cmb_datasummary_kurtosis_dom s ∧ cmb_datasummary_kurtosis s = sampleKurtosis xs := by
-  have hne : xs ≠ [] := by intro e; subst e; simp at hn
-  have hc : 3 < s.count := by rw [h.count]; omega
-  have h4 : (4 : K) ≤ (xs.length : K) := by exact_mod_cast hn
-  have hn0 : (xs.length : K) ≠ 0 := by intro e; linarith
-  have hn2 : (xs.length : K) - 2 ≠ 0 := by intro e; linarith
-  have hn3 : (xs.length : K) - 3 ≠ 0 := by intro e; linarith
-  have hm2 : s.m2 ≠ 0 := by rw [h.m2, h.m1_mean hne]; exact hv
-  have hv' : S 2 (amean xs) xs ≠ 0 := hv
+theorem kurtosis_formula (hc : 3 < s.count) (hck : s.cookie = 70391967513698304) :
+    (cmb_datasummary_kurtosis_dom s ↔ s.m2 ≠ 0) ∧
+    cmb_datasummary_kurtosis s = ((s.count : K) - 1) / (((s.count : K) - 2) * ((s.count : K) - 3))
+      * (((s.count : K) + 1) * ((s.count : K) * s.m4 / (s.m2 * s.m2) - 3) + 6) := by
+  have h4 : (4 : K) ≤ (s.count : K) := by exact_mod_cast hc
+  have hn2 : (s.count : K) - 2 ≠ 0 := by intro e; linarith
+  have hn3 : (s.count : K) - 3 ≠ 0 := by intro e; linarith
   constructor
-  · simp only [cmb_datasummary_kurtosis_dom, h.cookie_val, true_and, and_true, gt_iff_lt, hc, if_true]
-    rw [h.count]
-    exact ⟨mul_ne_zero hm2 hm2, mul_ne_zero hn2 hn3⟩
-  · simp only [cmb_datasummary_kurtosis, gt_iff_lt, hc, if_true, sampleKurtosis, cmoment]
-    rw [h.count, h.m2, h.m4, h.m1_mean hne]
-    field_simp
+  · simp only [cmb_datasummary_kurtosis_dom, hck, true_and, and_true, gt_iff_lt, hc, if_true]
+    constructor
+    · intro hd e; rw [e] at hd; simp at hd
+    · intro hm2; exact ⟨mul_ne_zero hm2 hm2, mul_ne_zero hn2 hn3⟩
+  · simp only [cmb_datasummary_kurtosis, gt_iff_lt, hc, if_true]
 
-/-- a vanishing second central sum (constant data) is exactly when the kurtosis is undefined: the C expression is 0/0 -/
-theorem kurtosis_undefined_iff (h : Repr D s xs) (hn : 4 ≤ xs.length) :
-    ¬ cmb_datasummary_kurtosis_dom s ↔ S 2 (amean xs) xs = 0 := by
-  have hne : xs ≠ [] := by intro e; subst e; simp at hn
-  have hc : 3 < s.count := by rw [h.count]; omega
-  constructor
-  · intro hd
-    by_contra hv
-    exact hd (kurtosis_reported h hn hv).1
-  · intro hv hd
-    simp only [cmb_datasummary_kurtosis_dom, h.cookie_val, true_and, and_true, gt_iff_lt, hc, if_true] at hd
-    rw [h.m2, h.m1_mean hne, hv] at hd
-    simp at hd
-
-theorem skewness_reported {sqrt : K → K} {pow : K → K → K} (hr : RootFns sqrt pow) (h : Repr D s xs)
-    (hn : 3 ≤ xs.length) (hv : S 2 (amean xs) xs ≠ 0) :
+theorem skewness_formula {sqrt : K → K} {pow : K → K → K} (hr : RootFns sqrt pow)
+    (hc : 2 < s.count) (hck : s.cookie = 70391967513698304) (hm2pos : 0 < s.m2) :
     cmb_datasummary_skewness_dom sqrt pow s
-      ∧ (cmb_datasummary_skewness sqrt pow s) ^ 2 = sampleSkewnessSq xs
-      ∧ (0 < S 3 (amean xs) xs → 0 < cmb_datasummary_skewness sqrt pow s)
-      ∧ (S 3 (amean xs) xs < 0 → cmb_datasummary_skewness sqrt pow s < 0)
-      ∧ (S 3 (amean xs) xs = 0 → cmb_datasummary_skewness sqrt pow s = 0) := by
-  have hne : xs ≠ [] := by intro e; subst e; simp at hn
-  have hc : 2 < s.count := by rw [h.count]; omega
-  have h3 : (3 : K) ≤ (xs.length : K) := by exact_mod_cast hn
-  set n : K := (xs.length : K) with hndef
+      ∧ (cmb_datasummary_skewness sqrt pow s) ^ 2
+          = ((s.count : K) * ((s.count : K) - 1)) * (s.count : K) * s.m3 ^ 2 / (s.m2 ^ 3 * ((s.count : K) - 2) ^ 2)
+      ∧ ∃ F : K, 0 < F ∧ cmb_datasummary_skewness sqrt pow s = F * s.m3 := by
+  have h3 : (3 : K) ≤ (s.count : K) := by exact_mod_cast hc
+  set n : K := (s.count : K) with hndef
   have hn0 : 0 < n := by linarith
   have hn2 : 0 < n - 2 := by linarith
   have hnn : 0 < n * (n - 1) := mul_pos hn0 (by linarith)
-  have hm2pos : 0 < s.m2 := lt_of_le_of_ne h.m2_nonneg (by rw [h.m2, h.m1_mean hne]; exact fun e => hv e.symm)
   -- the roots: P = pow m2 1.5 > 0 with P² = m2³, A = sqrt n > 0, B = sqrt (n(n-1)) > 0
   have hP2 := hr.pow_sq s.m2 (le_of_lt hm2pos)
   have hP0 := hr.pow_nonneg s.m2 (le_of_lt hm2pos)
@@ -603,42 +581,88 @@ theorem skewness_reported {sqrt : K → K} {pow : K → K → K} (hr : RootFns s
   have hPpos : 0 < pow s.m2 ((3 : K) / 2) := lt_of_le_of_ne hP0 (Ne.symm hPne)
   have hA2 := hr.sqrt_sq n (le_of_lt hn0)
   have hA0 := hr.sqrt_nonneg n (le_of_lt hn0)
-  have hApos : 0 < sqrt n := lt_of_le_of_ne hA0 (by intro e; rw [← e, zero_mul] at hA2; exact absurd hA2.symm (ne_of_gt hn0))
+  have hApos : 0 < sqrt n :=
+    lt_of_le_of_ne hA0 (by intro e; rw [← e, zero_mul] at hA2; exact absurd hA2.symm (ne_of_gt hn0))
   have hB2 := hr.sqrt_sq (n * (n - 1)) (le_of_lt hnn)
   have hB0 := hr.sqrt_nonneg (n * (n - 1)) (le_of_lt hnn)
   have hBpos : 0 < sqrt (n * (n - 1)) :=
     lt_of_le_of_ne hB0 (by intro e; rw [← e, zero_mul] at hB2; exact absurd hB2.symm (ne_of_gt hnn))
   have hval : cmb_datasummary_skewness sqrt pow s
       = sqrt (n * (n - 1)) * (sqrt n * s.m3 / pow s.m2 ((3 : K) / 2)) / (n - 2) := by
-    simp only [cmb_datasummary_skewness, gt_iff_lt, hc, if_true]
-    rw [h.count]
+    simp only [cmb_datasummary_skewness, gt_iff_lt, hc, if_true, hndef]
   have hfac : 0 < sqrt (n * (n - 1)) * sqrt n / (pow s.m2 ((3 : K) / 2) * (n - 2)) :=
     div_pos (mul_pos hBpos hApos) (mul_pos hPpos hn2)
   have hval' : cmb_datasummary_skewness sqrt pow s
       = (sqrt (n * (n - 1)) * sqrt n / (pow s.m2 ((3 : K) / 2) * (n - 2))) * s.m3 := by
     rw [hval]; field_simp
-  have hm3 : s.m3 = S 3 (amean xs) xs := by rw [h.m3, h.m1_mean hne]
-  refine ⟨?_, ?_, ?_, ?_, ?_⟩
-  · simp only [cmb_datasummary_skewness_dom, h.cookie_val, true_and, and_true, gt_iff_lt, hc, if_true]
-    rw [h.count]
+  refine ⟨?_, ?_, _, hfac, hval'⟩
+  · simp only [cmb_datasummary_skewness_dom, hck, true_and, and_true, gt_iff_lt, hc, if_true]
     exact ⟨hPne, ne_of_gt hn2⟩
-  · have hsq : (cmb_datasummary_skewness sqrt pow s) ^ 2
-        = (n * (n - 1)) * n * s.m3 ^ 2 / (s.m2 ^ 3 * (n - 2) ^ 2) := by
-      rw [hval']
-      have hn2' := ne_of_gt hn2
-      have e : (sqrt (n * (n - 1)) * sqrt n / (pow s.m2 ((3 : K) / 2) * (n - 2)) * s.m3) ^ 2
-          = (sqrt (n * (n - 1)) * sqrt (n * (n - 1))) * (sqrt n * sqrt n) * s.m3 ^ 2
-            / ((pow s.m2 ((3 : K) / 2) * pow s.m2 ((3 : K) / 2)) * (n - 2) ^ 2) := by
-        field_simp
-      rw [e, hA2, hB2, hP2]
-    rw [hsq]
-    simp only [sampleSkewnessSq, cmoment, ← hndef]
-    rw [← h.m1_mean hne, ← h.m2, ← h.m3]
-    have := ne_of_gt hn2; have := ne_of_gt hn0; have := ne_of_gt hm2pos
+  · rw [hval']
+    have hn2' := ne_of_gt hn2
+    have e : (sqrt (n * (n - 1)) * sqrt n / (pow s.m2 ((3 : K) / 2) * (n - 2)) * s.m3) ^ 2
+        = (sqrt (n * (n - 1)) * sqrt (n * (n - 1))) * (sqrt n * sqrt n) * s.m3 ^ 2
+          / ((pow s.m2 ((3 : K) / 2) * pow s.m2 ((3 : K) / 2)) * (n - 2) ^ 2) := by
+      field_simp
+    rw [e, hA2, hB2, hP2]
+
+/-! #### the accessors report the textbook statistics of the data -/
+
+theorem variance_reported (h : Repr D s xs) (hn : 2 ≤ xs.length) :
+    cmb_datasummary_variance_dom s ∧ cmb_datasummary_variance s = sampleVariance xs := by
+  have hne : xs ≠ [] := by intro e; subst e; simp at hn
+  obtain ⟨hd, hv⟩ := variance_formula (s := s) (by rw [h.count]; omega) h.cookie_val
+  refine ⟨hd, ?_⟩
+  rw [hv, h.count, h.m2, h.m1_mean hne]; rfl
+
+theorem variance_small (h : Repr D s xs) (hn : xs.length ≤ 1) :
+    cmb_datasummary_variance_dom s ∧ cmb_datasummary_variance s = 0 :=
+  variance_small_count (by rw [h.count]; exact hn) h.cookie_val
+
+theorem kurtosis_reported (h : Repr D s xs) (hn : 4 ≤ xs.length) (hv : S 2 (amean xs) xs ≠ 0) :
+    cmb_datasummary_kurtosis_dom s ∧ cmb_datasummary_kurtosis s = sampleKurtosis xs := by
+  have hne : xs ≠ [] := by intro e; subst e; simp at hn
+  obtain ⟨hd, hk⟩ := kurtosis_formula (s := s) (by rw [h.count]; omega) h.cookie_val
+  have h4 : (4 : K) ≤ (xs.length : K) := by exact_mod_cast hn
+  have hn0 : (xs.length : K) ≠ 0 := by intro e; linarith
+  have hn2 : (xs.length : K) - 2 ≠ 0 := by intro e; linarith
+  have hn3 : (xs.length : K) - 3 ≠ 0 := by intro e; linarith
+  have hm2 : s.m2 ≠ 0 := by rw [h.m2, h.m1_mean hne]; exact hv
+  have hv' : S 2 (amean xs) xs ≠ 0 := hv
+  refine ⟨hd.mpr hm2, ?_⟩
+  rw [hk, h.count, h.m2, h.m4, h.m1_mean hne]
+  simp only [sampleKurtosis, cmoment]
+  field_simp
+
+/-- a vanishing second central sum (constant data) is exactly when the kurtosis is undefined: the C expression is 0/0 -/
+theorem kurtosis_undefined_iff (h : Repr D s xs) (hn : 4 ≤ xs.length) :
+    ¬ cmb_datasummary_kurtosis_dom s ↔ S 2 (amean xs) xs = 0 := by
+  have hne : xs ≠ [] := by intro e; subst e; simp at hn
+  obtain ⟨hd, _⟩ := kurtosis_formula (s := s) (by rw [h.count]; omega) h.cookie_val
+  rw [hd, not_not, h.m2, h.m1_mean hne]
+
+theorem skewness_reported {sqrt : K → K} {pow : K → K → K} (hr : RootFns sqrt pow) (h : Repr D s xs)
+    (hn : 3 ≤ xs.length) (hv : S 2 (amean xs) xs ≠ 0) :
+    cmb_datasummary_skewness_dom sqrt pow s
+      ∧ (cmb_datasummary_skewness sqrt pow s) ^ 2 = sampleSkewnessSq xs
+      ∧ (0 < S 3 (amean xs) xs → 0 < cmb_datasummary_skewness sqrt pow s)
+      ∧ (S 3 (amean xs) xs < 0 → cmb_datasummary_skewness sqrt pow s < 0)
+      ∧ (S 3 (amean xs) xs = 0 → cmb_datasummary_skewness sqrt pow s = 0) := by
+  have hne : xs ≠ [] := by intro e; subst e; simp at hn
+  have h3 : (3 : K) ≤ (xs.length : K) := by exact_mod_cast hn
+  have hn0 : (xs.length : K) ≠ 0 := by intro e; linarith
+  have hn2 : (xs.length : K) - 2 ≠ 0 := by intro e; linarith
+  have hm2pos : 0 < s.m2 := lt_of_le_of_ne h.m2_nonneg (by rw [h.m2, h.m1_mean hne]; exact fun e => hv e.symm)
+  have hv' : S 2 (amean xs) xs ≠ 0 := hv
+  obtain ⟨hd, hsq, F, hF, hval⟩ := skewness_formula hr (s := s) (by rw [h.count]; omega) h.cookie_val hm2pos
+  have hm3 : s.m3 = S 3 (amean xs) xs := by rw [h.m3, h.m1_mean hne]
+  refine ⟨hd, ?_, ?_, ?_, ?_⟩
+  · rw [hsq, h.count, h.m2, h.m3, h.m1_mean hne]
+    simp only [sampleSkewnessSq, cmoment]
     field_simp
-  · intro hp; rw [hval']; exact mul_pos hfac (by rwa [hm3])
-  · intro hp; rw [hval']; exact mul_neg_of_pos_of_neg hfac (by rwa [hm3])
-  · intro hp; rw [hval', hm3, hp]; ring
+  · intro hp; rw [hval]; exact mul_pos hF (by rwa [hm3])
+  · intro hp; rw [hval]; exact mul_neg_of_pos_of_neg hF (by rwa [hm3])
+  · intro hp; rw [hval, hm3, hp]; ring
 
 end accessors
 
